@@ -29,7 +29,7 @@ theorem PassComm.ite {c : Prop} [Decidable c] {a b : Pass} (ha : PassComm f a) (
   · rw [if_neg h]; exact hb
 
 /-- every pass `passByName` can return commutes with re-spelling -/
-theorem passByName_respell (ha : Admissible upper f) (name : String) : PassComm f (passByName upper name) := by
+theorem passByName_respell (ha : AdmissibleNames upper f) (name : String) : PassComm f (passByName upper name) := by
   unfold passByName
   repeat' apply PassComm.ite
   all_goals first
@@ -55,7 +55,7 @@ theorem passByName_respell (ha : Admissible upper f) (name : String) : PassComm 
     | exact driverPass_respell (cfgAssignment_respell ha)
     | exact driverPass_respell (cfgIdentifierList_respell ha)
 
-theorem runPasses_respell (ha : Admissible upper f) (fuel : Nat) (c : Cls) (names : List String) (ks : List Node) :
+theorem runPasses_respell (ha : AdmissibleNames upper f) (fuel : Nat) (c : Cls) (names : List String) (ks : List Node) :
     runPasses upper fuel c names (ks.map (respell f)) =
       (runPasses upper fuel c names ks).map (List.map (respell f)) := by
   induction names generalizing ks with
@@ -66,10 +66,31 @@ theorem runPasses_respell (ha : Admissible upper f) (fuel : Nat) (c : Cls) (name
     | error e => rfl
     | ok ks' => exact ih ks'
 
+/-- **re-spelling commutes with grouping** (any `upper`), identifier-typed leaves included -/
+theorem respell_groupWith_names (ha : AdmissibleNames upper f) (fuel : Nat) (ks : List Node) :
+    groupWith upper fuel (ks.map (respell f)) = (groupWith upper fuel ks).map (List.map (respell f)) :=
+  runPasses_respell ha fuel .Statement Gen.passOrder ks
+
+/-- **re-spelling names, keywords and whitespace values commutes with `grouping.group`** -/
+theorem respell_group_names (ha : AdmissibleNames kwNorm f) (fuel : Nat) (ks : List Node) :
+    group fuel (ks.map (respell f)) = (group fuel ks).map (List.map (respell f)) :=
+  respell_groupWith_names ha fuel ks
+
+theorem respell_groupStatement_names (ha : AdmissibleNames kwNorm f) (fuel : Nat) (st : List Tok) :
+    groupStatement fuel (st.map fun t => ⟨t.tt, f t.tt t.val⟩) = (groupStatement fuel st).map (respell f) := by
+  unfold groupStatement
+  have hmap : ((st.map fun t => (⟨t.tt, f t.tt t.val⟩ : Tok)).map fun t => Node.tok t.tt t.val) =
+      (st.map fun t => Node.tok t.tt t.val).map (respell f) := by
+    simp [List.map_map, Function.comp_def]
+  rw [hmap, respell_group_names ha]
+  cases group fuel (st.map fun t => Node.tok t.tt t.val) with
+  | error e => rfl
+  | ok ks => simp
+
 /-- **re-spelling commutes with grouping** (any `upper`) -/
 theorem respell_groupWith (ha : Admissible upper f) (fuel : Nat) (ks : List Node) :
     groupWith upper fuel (ks.map (respell f)) = (groupWith upper fuel ks).map (List.map (respell f)) :=
-  runPasses_respell ha fuel .Statement Gen.passOrder ks
+  respell_groupWith_names ha.toNames fuel ks
 
 /-- **re-spelling commutes with `grouping.group`** (`upper := kwNorm`, all 25 passes, every input, every fuel) -/
 theorem respell_group (ha : Admissible kwNorm f) (fuel : Nat) (ks : List Node) :
@@ -78,15 +99,8 @@ theorem respell_group (ha : Admissible kwNorm f) (fuel : Nat) (ks : List Node) :
 
 /-- the same for a flat statement of the splitter: re-spell the tokens, group — or group, re-spell the tree -/
 theorem respell_groupStatement (ha : Admissible kwNorm f) (fuel : Nat) (st : List Tok) :
-    groupStatement fuel (st.map fun t => ⟨t.tt, f t.tt t.val⟩) = (groupStatement fuel st).map (respell f) := by
-  unfold groupStatement
-  have hmap : ((st.map fun t => (⟨t.tt, f t.tt t.val⟩ : Tok)).map fun t => Node.tok t.tt t.val) =
-      (st.map fun t => Node.tok t.tt t.val).map (respell f) := by
-    simp [List.map_map, Function.comp_def]
-  rw [hmap, respell_group ha]
-  cases group fuel (st.map fun t => Node.tok t.tt t.val) with
-  | error e => rfl
-  | ok ks => simp
+    groupStatement fuel (st.map fun t => ⟨t.tt, f t.tt t.val⟩) = (groupStatement fuel st).map (respell f) :=
+  respell_groupStatement_names ha.toNames fuel st
 
 /-- consequences read off the equation: success/failure, classes and shape do not depend on the spelling -/
 theorem respell_group_ok (ha : Admissible kwNorm f) {fuel : Nat} {ks ks' : List Node} (h : group fuel ks = .ok ks') :
